@@ -102,21 +102,76 @@ func r201(c *Ctx) {
 		c.ob(rule, name.fn+"/looks-up-its-key", fc.Pos(), fc.Call.Args[0] == ssa.Value(fn.Params[0]) && !inLoop(fc.Block()), true, "")
 		c.ob(rule, name.fn+"/parses-the-found-value", pc.Pos(), pc.Call.Args[0] == resultOf(fc, 0), true, "")
 		def := ssa.Value(fn.Params[1])
-		var absent, malformed, parsed bool
-		for _, ret := range normalReturns(fn) {
-			v := retVal(ret, 0)
-			_, notFound := boolFacts(ret, func(x ssa.Value) bool { e, ok := x.(*ssa.Extract); return ok && e.Tuple == ssa.Value(fc) && e.Index == 1 })
-			_, perr := nilKnowledge(ret, sameAs(errResultOf(pc)))
-			pok, _ := nilKnowledge(ret, sameAs(errResultOf(pc)))
+		// every way of returning: the parsed value only when the variable was found and parsed; the default otherwise; and
+		// never the default on the path where it was found and parsed
+		isFound := func(x ssa.Value) bool { e, ok := x.(*ssa.Extract); return ok && e.Tuple == ssa.Value(fc) && e.Index == 1 }
+		absent, malformed, parsed := true, true, false
+		nDef := 0
+		for _, rc := range retCases(fn) {
+			v := rc.vals[0]
+			found, notFound := boolFactsOf(rc.conds, isFound)
+			pok, perr := nilKnowledgeOf(rc.conds, sameAs(errResultOf(pc)))
 			switch {
-			case notFound:
-				absent = v == def
-			case perr:
-				malformed = v == def
-			case pok:
-				parsed = v == resultOf(pc, 0)
+			case v == resultOf(pc, 0):
+				if !found {
+					absent = false
+				}
+				if !pok {
+					malformed = false
+				}
+				if found && pok {
+					parsed = true
+				}
+			case v == def:
+				nDef++
+				if found && pok {
+					parsed = false
+					nDef = -99
+				}
+				_, _ = notFound, perr
+			default:
+				absent, malformed = false, false
 			}
 		}
+		// the success branch of the parse never falls through to a return of the default
+		for _, b := range fn.Blocks {
+			if len(b.Instrs) == 0 {
+				continue
+			}
+			conds := dominatingConds(b)
+			found, _ := boolFactsOf(conds, isFound)
+			pok, _ := nilKnowledgeOf(conds, sameAs(errResultOf(pc)))
+			if !found || !pok {
+				continue
+			}
+			if _, falls := reach(fn, b.Instrs[0], func(in ssa.Instruction) bool {
+				r, ok := in.(*ssa.Return)
+				if !ok {
+					return false
+				}
+				for _, src := range phiSources(retVal(r, 0)) {
+					if src == def {
+						return true
+					}
+				}
+				return false
+			}, nil); falls {
+				// (a merged return that CAN yield the default is fine as long as this path feeds it the parsed value)
+				okMerge := true
+				for _, rc := range retCases(fn) {
+					f2, _ := boolFactsOf(rc.conds, isFound)
+					p2, _ := nilKnowledgeOf(rc.conds, sameAs(errResultOf(pc)))
+					if f2 && p2 && rc.vals[0] == def {
+						okMerge = false
+					}
+				}
+				if !okMerge {
+					parsed = false
+				}
+			}
+		}
+		absent = absent && nDef >= 1
+		malformed = malformed && nDef >= 1
 		c.ob(rule, name.fn+"/absent=>default", fn.Pos(), absent, true, "")
 		c.ob(rule, name.fn+"/malformed=>default", fn.Pos(), malformed, true, "a value that does not parse must fall back to the default (not to another variable, not to zero)")
 		c.ob(rule, name.fn+"/valid=>parsed-value", fn.Pos(), parsed, true, "")
@@ -443,6 +498,29 @@ func r203(c *Ctx) {
 			}
 		}
 	}
+	// ... or collected in a slice that is then registered (loop / variadic): every `.cmd` of a constructor result
+	// stored into a []*cobra.Command of a function that calls AddCommand
+	for _, fn := range []*ssa.Function{ex, c.funcIn(c.cmd, "newRolloutCommand")} {
+		if len(callsToName(fn, "(*github.com/spf13/cobra.Command).AddCommand")) == 0 {
+			continue
+		}
+		for _, b := range fn.Blocks {
+			for _, in := range b.Instrs {
+				st, ok := in.(*ssa.Store)
+				if !ok {
+					continue
+				}
+				if _, isIdx := st.Addr.(*ssa.IndexAddr); !isIdx || !strings.HasSuffix(typeString(st.Val.Type()), "cobra.Command") {
+					continue
+				}
+				if f, base, ok := fieldLoad(st.Val); ok && f.Name() == "cmd" {
+					if call, ok := base.(*ssa.Call); ok && call.Call.StaticCallee() != nil {
+						reg[call.Call.StaticCallee().Name()] = true
+					}
+				}
+			}
+		}
+	}
 	for _, n := range []string{"newRunCommand", "newDeployCommand", "newRemoveCommand", "newPauseCommand", "newStopCommand", "newResumeCommand", "newListCommand", "newRolloutCommand", "newRolloutDeployCommand", "newRolloutSetCommand", "newRolloutStopCommand"} {
 		c.ob(rule, "registered: "+n, ex.Pos(), reg[n], true, "")
 	}
@@ -452,9 +530,15 @@ func r203(c *Ctx) {
 		if fn.Parent() != nil || recvNamed(fn) == nil || recvNamed(fn).Obj() != ch.Obj() || !fn.Object().Exported() || fn.Name() == "Start" || fn.Name() == "Close" || fn.Name() == "List" {
 			continue
 		}
+		// the eight commands that change the proxy (a new read-only RPC method, or an exported method that is no RPC
+		// handler at all, has no router error to report)
+		if !map[string]bool{"Deploy": true, "Remove": true, "Pause": true, "Stop": true, "Resume": true, "RolloutDeploy": true, "RolloutSet": true, "RolloutStop": true}[fn.Name()] {
+			continue
+		}
 		ok := false
-		for _, ret := range normalReturns(fn) {
-			if call, isC := lastRet(ret).(*ssa.Call); isC && call.Call.StaticCallee() != nil && recvNamed(call.Call.StaticCallee()) != nil && recvNamed(call.Call.StaticCallee()).Obj().Name() == "Router" {
+		for _, rc := range retCases(fn) {
+			v := rc.vals[len(rc.vals)-1]
+			if call, isC := v.(*ssa.Call); isC && call.Call.StaticCallee() != nil && recvNamed(call.Call.StaticCallee()) != nil && recvNamed(call.Call.StaticCallee()).Obj().Name() == "Router" {
 				ok = true
 			} else {
 				ok = false
@@ -620,10 +704,18 @@ func r205(c *Ctx) {
 func varargElemsOfSliceLit(v ssa.Value) []ssa.Value { return varargElems(v) }
 
 func describeListValue(v ssa.Value) string {
+	v = throughStructCopy(v)
 	if call, ok := v.(*ssa.Call); ok {
 		switch calleeName(call.Common()) {
+		case "cmp.Or":
+			// first non-zero of (value, "*"): the value, with the documented placeholder for "any host"
+			for _, e := range varargElems(call.Call.Args[0]) {
+				if d := describeListValue(e); d != "?" && d != "" {
+					return d
+				}
+			}
 		case "strings.Join":
-			inner := call.Call.Args[0]
+			inner := throughStructCopy(call.Call.Args[0])
 			if ch, _ := fieldPath(inner); len(ch) > 0 {
 				return "join(" + ch[len(ch)-1].Name() + ")"
 			}
